@@ -146,27 +146,31 @@ Definition reorder_nonfinal (l : list pdesc) : list pdesc :=
 Definition taints (s : sprov) : bool :=
   match s_group s with GRun | GInvoke => true | _ => false end.
 
+(* one provider of characterizeAndFlatten: characterize as if its inputs were static; if that makes
+   it static but one of its inputs is tainted (comes from invoke or a run-group provider listed
+   earlier), characterize again with inputsAreStatic = false *)
+Definition char_one (te : tyenv) (d : pdesc) (isLast : bool) (nonStatic : list nat) : option sprov :=
+  match characterizeFunc te d (mkCC isLast true) with
+  | None => None
+  | Some s0 =>
+    if group_eqb (s_group s0) GStatic && existsb (fun t => memb t nonStatic) (fl (f_in (s_flows s0)))
+    then characterizeFunc te d (mkCC isLast false) else Some s0
+  end.
+
 Fixpoint char_loop (te : tyenv) (l : list pdesc) (nonStatic : list nat)
          (accInit accInvoke : list sprov) : res (list sprov * list sprov) :=
   match l with
   | [] => Ok (rev accInit, rev accInvoke)
   | d :: r =>
     let isLast := match r with [] => true | _ => false end in
-    match characterizeFunc te d (mkCC isLast true) with
+    match char_one te d isLast nonStatic with
     | None => Err EB_NOMATCH
-    | Some s0 =>
-      let rs :=
-        if group_eqb (s_group s0) GStatic && existsb (fun t => memb t nonStatic) (fl (f_in (s_flows s0)))
-        then characterizeFunc te d (mkCC isLast false) else Some s0 in
-      match rs with
-      | None => Err EB_NOMATCH
-      | Some s =>
-        let nonStatic' := if taints s then fl (f_out (s_flows s)) ++ nonStatic else nonStatic in
-        match s_group s with
-        | GStatic | GLiteral => char_loop te r nonStatic' (s :: accInit) accInvoke
-        | GFinal | GRun => char_loop te r nonStatic' accInit (s :: accInvoke)
-        | GInvoke => Err EB_INTERNAL
-        end
+    | Some s =>
+      let nonStatic' := if taints s then fl (f_out (s_flows s)) ++ nonStatic else nonStatic in
+      match s_group s with
+      | GStatic | GLiteral => char_loop te r nonStatic' (s :: accInit) accInvoke
+      | GFinal | GRun => char_loop te r nonStatic' accInit (s :: accInvoke)
+      | GInvoke => Err EB_INTERNAL
       end
     end
   end.
